@@ -97,6 +97,10 @@ var prop = vh.Define("C04", "wellformed", func(c Case, r *vh.R) {
 			r.Class("refused")
 			return
 		}
+		if may, _ := s.WriteMayFail(); may {
+			r.Class("refused-non-ascii-header")
+			return
+		}
 		r.Failf("write-error", "WriteTo failed on a valid bundle: %v", err)
 		return
 	}
